@@ -216,6 +216,36 @@ theorem stored_mapping_reprojects_before_to_after (before after : List CId) (m :
 example : mappingOf [5, 6, 7, 8] [7, 5] = some [2, 0] ∧ apply { store := [], active := some [2, 0] } [15, 16, 17, 18] = [17, 15] := by
   decide
 
+/-- what re-projection is for: if the bottom relation lists its columns position by position like the top did AT the set
+operation (`botOut[j]` under `before[j]`), then after the stored mapping is applied the bottom lists, under every column the top
+KEEPS, the column that stood under it before - the two branches of the set operation stay aligned, for lists of any length -/
+theorem reprojection_keeps_the_branches_aligned (before after botOut : List CId) (m : List Nat)
+    (h : mappingOf before after = some m) (hlen : botOut.length = before.length) :
+    (apply { store := [], active := some m } botOut).length = after.length ∧
+    ∀ i, i < after.length → ∃ j, j < before.length ∧ before.getD j 0 = after.getD i 0 ∧
+      (apply { store := [], active := some m } botOut).getD i 0 = botOut.getD j 0 := by
+  obtain ⟨h1, h2⟩ := mappingOf_spec h
+  have hvalid : (m.any fun i => decide (botOut.length ≤ i)) = false := by
+    apply List.any_eq_false.mpr
+    intro i hi
+    have := h2 i hi
+    simp; omega
+  have happly : apply { store := [], active := some m } botOut = m.map fun i => botOut.getD i 0 := by
+    unfold apply
+    simp only [hvalid, Bool.false_eq_true, if_false]
+  have hml : m.length = after.length := by
+    have := congrArg List.length h1
+    simpa using this
+  refine ⟨by rw [happly]; simpa using hml, ?_⟩
+  intro i hi
+  have him : i < m.length := by omega
+  refine ⟨m[i], h2 _ (List.getElem_mem him), ?_, ?_⟩
+  · have := congrArg (fun l => l.getD i 0) h1
+    simp only [List.getD_eq_getElem?_getD, List.getElem?_map, List.getElem?_eq_getElem him, Option.map_some, Option.getD_some] at this ⊢
+    exact this
+  · rw [happly]
+    simp [List.getD_eq_getElem?_getD, List.getElem?_map, List.getElem?_eq_getElem him]
+
 /-- a mapping is stored only if EVERY column kept after the split was there before it (an incomplete mapping is dropped) -/
 theorem incomplete_mapping_is_not_stored (m : Mapper) (before after : List CId) (r : RIId)
     (h : mappingOf before after = none) : computeAndStore m before after r = m := by
